@@ -64,4 +64,218 @@ theorem bankTotal_setBalance {s : State} (h : Tbl.Nodup s.bank) (a : Addr) (d d'
     rw [Tbl.sumKV_set _ h]
     cases hg : s.bank.get (a, d) <;> by_cases hd : d = d' <;> simp [hd] <;> omega
 
+
+theorem require_eq_ok {c : Bool} {m : String} {u : Unit} : (require c m = .ok u) ↔ c = true := by
+  unfold require; cases c <;> simp [reject, pure, Except.pure]
+
+theorem requireP_eq_ok {c : Bool} {m : String} {u : Unit} : (requireP c m = .ok u) ↔ c = true := by
+  unfold requireP; cases c <;> simp [gopanic, pure, Except.pure]
+
+theorem orReject_eq_ok {α : Type} {o : Option α} {m : String} {a : α} : (orReject o m = .ok a) ↔ o = some a := by
+  unfold orReject; cases o <;> simp [reject, pure, Except.pure]
+
+theorem orPanic_eq_ok {α : Type} {o : Option α} {m : String} {a : α} : (orPanic o m = .ok a) ↔ o = some a := by
+  unfold orPanic; cases o <;> simp [gopanic, pure, Except.pure]
+
+theorem SInt.add_eq_ok {a b r : Int} (h : SInt.add a b = .ok r) : r = a + b := by
+  unfold SInt.add at h; split at h
+  · simp [gopanic] at h
+  · simpa [pure, Except.pure] using h.symm
+
+theorem SInt.sub_eq_ok {a b r : Int} (h : SInt.sub a b = .ok r) : r = a - b := by
+  unfold SInt.sub at h; split at h
+  · simp [gopanic] at h
+  · simpa [pure, Except.pure] using h.symm
+
+theorem SInt.mul_eq_ok {a b r : Int} (h : SInt.mul a b = .ok r) : r = a * b := by
+  unfold SInt.mul at h; split at h
+  · simp [gopanic] at h
+  · simpa [pure, Except.pure] using h.symm
+
+theorem panicIfErr_eq_ok {α : Type} {r : M α} {a : α} : (panicIfErr r = .ok a) ↔ r = .ok a := by
+  unfold panicIfErr
+  cases r with
+  | ok x => simp
+  | error e => cases e <;> simp [gopanic]
+
+/-! ### sendCoins -/
+
+theorem sendCoins_ok {s s' : State} {f t : Addr} {c : Coin} (h : sendCoins s f t c = .ok s') :
+    (∀ a d, balance s' a d = balance s a d
+        - (if f = a ∧ c.denom = d then c.amount else 0) + (if t = a ∧ c.denom = d then c.amount else 0)) ∧
+    s' = { s with bank := s'.bank } ∧
+    (Tbl.Nodup s.bank → Tbl.Nodup s'.bank ∧ ∀ d, bankTotal s' d = bankTotal s d) := by
+  unfold sendCoins at h
+  simp only [bind_eq_ok, pure_eq_ok, require_eq_ok] at h
+  obtain ⟨_, _, nb, hnb, rfl⟩ := h
+  have hnb' := SInt.add_eq_ok hnb
+  refine ⟨?_, rfl, ?_⟩
+  · intro a d
+    rw [balance_setBalance, hnb', balance_setBalance, balance_setBalance]
+    by_cases hd : c.denom = d
+    · subst hd
+      by_cases hfa : f = a
+      · subst hfa
+        by_cases hta : t = f
+        · subst hta; simp
+        · simp [hta, Ne.symm hta]
+      · by_cases hta : t = a
+        · subst hta; simp [hfa]
+        · simp [hfa, hta]
+    · simp [hd]
+  · intro hn
+    have hn1 := bankNodup_setBalance hn f c.denom (balance s f c.denom - c.amount)
+    refine ⟨bankNodup_setBalance hn1 _ _ _, ?_⟩
+    intro d
+    rw [bankTotal_setBalance hn1, bankTotal_setBalance hn, hnb']
+    by_cases hd : c.denom = d <;> simp [hd]
+
+
+/-! ### the money frame: a step that only touches bank, supply, deposits and events -/
+
+def MoneyFrame (s s' : State) : Prop :=
+  s' = { s with bank := s'.bank, deposits := s'.deposits, supply := s'.supply, events := s'.events }
+
+theorem MoneyFrame.refl (s : State) : MoneyFrame s s := rfl
+
+theorem MoneyFrame.trans {a b c : State} (h1 : MoneyFrame a b) (h2 : MoneyFrame b c) : MoneyFrame a c := by
+  unfold MoneyFrame at *
+  rw [h2, h1]
+
+theorem MoneyFrame.plans {s s' : State} (h : MoneyFrame s s') :
+    s'.planActive = s.planActive ∧ s'.planInactive = s.planInactive := by
+  unfold MoneyFrame at h; rw [h]; exact ⟨rfl, rfl⟩
+
+theorem MoneyFrame.emit {s : State} (e : Event) : MoneyFrame s (emit s e) := rfl
+
+theorem sendCoins_frame {s s' : State} {f t : Addr} {c : Coin} (h : sendCoins s f t c = .ok s') : MoneyFrame s s' := by
+  have := (sendCoins_ok h).2.1
+  unfold MoneyFrame; rw [this]
+
+/-! ### deposit records -/
+
+theorem totalDeposits_setDeposit {s : State} (h : Tbl.Nodup s.deposits) (a : Addr) (cs : Coins) (d : Denom) :
+    totalDeposits (setDeposit s a cs) d
+      = totalDeposits s d - ((getDeposit s a).getD []).amountOf d + cs.amountOf d := by
+  unfold totalDeposits setDeposit getDeposit
+  simp only []
+  rw [Tbl.sumKV_set _ h]
+  cases s.deposits.get a <;> simp [Coins.amountOf_nil]
+
+theorem supplyOf_frame {s s' : State} (h : s'.supply = s.supply) (d : Denom) : supplyOf s' d = supplyOf s d := by
+  unfold supplyOf; rw [h]
+
+/-- `sendCoins` between two accounts other than the escrow keeps the money invariant. -/
+theorem sendCoins_inv {s s' : State} {f t : Addr} {c : Coin} (h : sendCoins s f t c = .ok s') (hi : MoneyInv s)
+    (hf : f ≠ depositAddr) (ht : t ≠ depositAddr) : MoneyInv s' := by
+  obtain ⟨hb, hfr, hn⟩ := sendCoins_ok h
+  obtain ⟨hn1, hn2⟩ := hn hi.bankNodup
+  have hdep : s'.deposits = s.deposits := by rw [hfr]
+  have hsup : s'.supply = s.supply := by rw [hfr]
+  refine ⟨?_, ?_, ?_, hn1, ?_, ?_⟩
+  · intro d
+    rw [hb]
+    have : totalDeposits s' d = totalDeposits s d := by unfold totalDeposits; rw [hdep]
+    rw [this, ← hi.backed d]
+    simp [hf, ht]
+  · rw [hdep]; exact hi.depNodup
+  · intro a cs hg; rw [hdep] at hg; exact hi.depNonneg a cs hg
+  · intro d; rw [hn2, supplyOf_frame hsup]; exact hi.supplyOK d
+  · intro id p hp; rw [(sendCoins_frame h).plans.1, (sendCoins_frame h).plans.2] at hp; exact hi.provOK id p hp
+
+theorem depNonneg_setDeposit {s : State} (hi : ∀ a cs, s.deposits.get a = some cs → Coins.Nonneg cs) (a : Addr) (cs : Coins)
+    (hcs : Coins.Nonneg cs) : ∀ a' cs', (setDeposit s a cs).deposits.get a' = some cs' → Coins.Nonneg cs' := by
+  intro a' cs' hg
+  unfold setDeposit at hg
+  simp only [Tbl.get_set] at hg
+  by_cases h : a = a'
+  · simp only [h, if_true, Option.some.injEq] at hg; rw [← hg]; exact hcs
+  · simp only [h, if_false] at hg; exact hi a' cs' hg
+
+/-- `SendCoinsFromAccountToDeposit`. -/
+theorem depositAdd_inv {s s' : State} {f t : Addr} {c : Coin} (h : depositAdd s f t c = .ok s') (hi : MoneyInv s)
+    (hf : f ≠ depositAddr) : MoneyInv s' ∧ MoneyFrame s s' := by
+  unfold depositAdd at h
+  simp only [bind_eq_ok, pure_eq_ok, require_eq_ok] at h
+  obtain ⟨s1, hs1, _, hneg, rfl⟩ := h
+  obtain ⟨hb, hfr, hn⟩ := sendCoins_ok hs1
+  obtain ⟨hn1, hn2⟩ := hn hi.bankNodup
+  have hdep : s1.deposits = s.deposits := by rw [hfr]
+  have hsup : s1.supply = s.supply := by rw [hfr]
+  have hnd1 : Tbl.Nodup s1.deposits := by rw [hdep]; exact hi.depNodup
+  have hnn : Coins.Nonneg (((getDeposit s1 t).getD []).add c) :=
+    Coins.nonneg_of_not_anyNegative (by simpa using hneg)
+  refine ⟨⟨?_, ?_, ?_, ?_, ?_, ?_⟩, ?_⟩
+  · intro d
+    show balance (setDeposit s1 t (((getDeposit s1 t).getD []).add c)) depositAddr d = totalDeposits (setDeposit s1 t (((getDeposit s1 t).getD []).add c)) d
+    rw [totalDeposits_setDeposit hnd1, Coins.amountOf_add]
+    have e1 : balance (setDeposit s1 t (((getDeposit s1 t).getD []).add c)) depositAddr d = balance s1 depositAddr d := rfl
+    have e2 : totalDeposits s1 d = totalDeposits s d := by unfold totalDeposits; rw [hdep]
+    rw [e1, hb, e2, ← hi.backed d]
+    simp [hf]
+    omega
+  · exact Tbl.nodup_set hnd1 _ _
+  · exact depNonneg_setDeposit (by intro a cs hg; rw [hdep] at hg; exact hi.depNonneg a cs hg) _ _ hnn
+  · exact hn1
+  · intro d
+    show supplyOf s1 d = bankTotal s1 d
+    rw [hn2, supplyOf_frame hsup]; exact hi.supplyOK d
+  · intro id p hp
+    have hp' : s1.planActive.get id = some p ∨ s1.planInactive.get id = some p := hp
+    rw [(sendCoins_frame hs1).plans.1, (sendCoins_frame hs1).plans.2] at hp'; exact hi.provOK id p hp'
+  · exact (sendCoins_frame hs1).trans rfl
+
+/-- Common core of `SendCoinsFromDepositToAccount` / `…ToModule`: the record shrinks by what the
+escrow account pays out. -/
+theorem depositOut_inv {s s1 : State} {f t : Addr} {c : Coin} {cur : Coins} {e : Event}
+    (hs1 : sendCoins s depositAddr t c = .ok s1) (hcur : getDeposit s f = some cur)
+    (hneg : (cur.sub c).isAnyNegative = false) (hi : MoneyInv s) (ht : t ≠ depositAddr) :
+    MoneyInv (emit (setDeposit s1 f (cur.sub c)) e) ∧ MoneyFrame s (emit (setDeposit s1 f (cur.sub c)) e) := by
+  obtain ⟨hb, hfr, hn⟩ := sendCoins_ok hs1
+  obtain ⟨hn1, hn2⟩ := hn hi.bankNodup
+  have hdep : s1.deposits = s.deposits := by rw [hfr]
+  have hsup : s1.supply = s.supply := by rw [hfr]
+  have hnd1 : Tbl.Nodup s1.deposits := by rw [hdep]; exact hi.depNodup
+  have hnn : Coins.Nonneg (cur.sub c) := Coins.nonneg_of_not_anyNegative hneg
+  have hcur1 : getDeposit s1 f = some cur := by unfold getDeposit; rw [hdep]; exact hcur
+  refine ⟨⟨?_, ?_, ?_, ?_, ?_, ?_⟩, ?_⟩
+  · intro d
+    show balance (setDeposit s1 f (cur.sub c)) depositAddr d = totalDeposits (setDeposit s1 f (cur.sub c)) d
+    rw [totalDeposits_setDeposit hnd1, Coins.amountOf_sub, hcur1]
+    have e1 : balance (setDeposit s1 f (cur.sub c)) depositAddr d = balance s1 depositAddr d := rfl
+    have e2 : totalDeposits s1 d = totalDeposits s d := by unfold totalDeposits; rw [hdep]
+    rw [e1, hb, e2, ← hi.backed d]
+    simp [ht]
+  · exact Tbl.nodup_set hnd1 _ _
+  · exact depNonneg_setDeposit (by intro a cs hg; rw [hdep] at hg; exact hi.depNonneg a cs hg) _ _ hnn
+  · exact hn1
+  · intro d
+    show supplyOf s1 d = bankTotal s1 d
+    rw [hn2, supplyOf_frame hsup]; exact hi.supplyOK d
+  · intro id p hp
+    have hp' : s1.planActive.get id = some p ∨ s1.planInactive.get id = some p := hp
+    rw [(sendCoins_frame hs1).plans.1, (sendCoins_frame hs1).plans.2] at hp'; exact hi.provOK id p hp'
+  · exact (sendCoins_frame hs1).trans rfl
+
+theorem isBlocked_depositAddr : isBlocked depositAddr = true := by decide
+
+theorem depositToAccount_inv {s s' : State} {f t : Addr} {c : Coin} (h : depositToAccount s f t c = .ok s') (hi : MoneyInv s) :
+    MoneyInv s' ∧ MoneyFrame s s' := by
+  unfold depositToAccount sendModuleToAccount at h
+  simp only [bind_eq_ok, pure_eq_ok, require_eq_ok, orReject_eq_ok] at h
+  obtain ⟨cur, hcur, _, hneg, s1, hs1, rfl⟩ := h
+  by_cases hb : isBlocked t = true
+  · simp [hb, reject] at hs1
+  · simp only [hb, if_false] at hs1
+    have ht : t ≠ depositAddr := by
+      intro e; rw [e] at hb; exact hb isBlocked_depositAddr
+    exact depositOut_inv hs1 hcur (by simpa using hneg) hi ht
+
+theorem depositToModule_inv {s s' : State} {f m : Addr} {c : Coin} (h : depositToModule s f m c = .ok s') (hi : MoneyInv s)
+    (hm : m ≠ depositAddr) : MoneyInv s' ∧ MoneyFrame s s' := by
+  unfold depositToModule at h
+  simp only [bind_eq_ok, pure_eq_ok, require_eq_ok, orReject_eq_ok] at h
+  obtain ⟨cur, hcur, _, hneg, s1, hs1, rfl⟩ := h
+  exact depositOut_inv hs1 hcur (by simpa using hneg) hi hm
+
 end Hub.Model
